@@ -193,6 +193,40 @@ func other(sh shape) any {
 	panic("other")
 }
 
+// nearMiss returns a value with the same length/keys as v whose last (deepest) scalar differs.
+func nearMiss(v any) any {
+	switch x := v.(type) {
+	case []any:
+		if len(x) == 0 {
+			return []any{0}
+		}
+		out := append([]any{}, x...)
+		out[len(out)-1] = nearMiss(out[len(out)-1])
+		return out
+	case map[string]any:
+		if len(x) == 0 {
+			return map[string]any{"nm": 0}
+		}
+		out := map[string]any{}
+		last := ""
+		for k, e := range x {
+			out[k] = e
+			if k > last {
+				last = k
+			}
+		}
+		out[last] = nearMiss(out[last])
+		return out
+	case int:
+		return x + 1
+	case string:
+		return x + "_"
+	case bool:
+		return !x
+	}
+	return 0
+}
+
 func appsFor(sh shape) []app {
 	var out []app
 	add := func(op string, class int, body string) {
@@ -204,6 +238,7 @@ func appsFor(sh shape) []app {
 	}
 	L := asplib.Lit(sh.Val)
 	L2 := asplib.Lit(other(sh))
+	L3 := asplib.Lit(nearMiss(sh.Val))
 
 	if sh.Top == "list" {
 		l := sh.Val.([]any)
@@ -267,6 +302,9 @@ func appsFor(sh shape) []app {
 		expr("eq-rhs", core_, L+" == X")
 		expr("eq-self", core_, "X == X")
 		expr("eq-different", core_, "X == "+L2)
+		expr("eq-near-miss-lhs", core_, "X == "+L3)
+		expr("eq-near-miss-rhs", core_, L3+" == X")
+		expr("ne-near-miss", design, "X != "+L3)
 		expr("eq-in-list", core_, "[X] == ["+L+"]")
 		expr("eq-in-dict", core_, "{\"a\": X} == {\"a\": "+L+"}")
 		expr("eq-copy", core_, "[e for e in X] == X")
@@ -324,8 +362,6 @@ func appsFor(sh shape) []app {
 			rule("rule-arg/hashes", "genrule(name = \"g\", outs = [\"o\"], cmd = \"true\", hashes = X)\n")
 			rule("rule-arg/filegroup-srcs", "filegroup(name = \"g\", srcs = X)\n")
 			rule("rule-arg/data", "genrule(name = \"g\", outs = [\"o\"], cmd = \"true\", data = X)\n")
-			expr("glob-exclude", core_, "glob([\"*.nothing\"], exclude = X, allow_empty = True)")
-			expr("glob-include", core_, "glob(X, allow_empty = True)")
 		}
 		if sh.Name == "LL" {
 			rule("rule-arg/deps", "genrule(name = \"g\", outs = [\"o\"], cmd = \"true\", deps = X)\n")
@@ -398,6 +434,9 @@ func appsFor(sh shape) []app {
 	expr("eq-rhs", core_, L+" == X")
 	expr("eq-self", core_, "X == X")
 	expr("eq-different", core_, "X == "+L2)
+	expr("eq-near-miss-lhs", core_, "X == "+L3)
+	expr("eq-near-miss-rhs", core_, L3+" == X")
+	expr("ne-near-miss", design, "X != "+L3)
 	expr("eq-in-list", core_, "[X] == ["+L+"]")
 	expr("eq-in-dict", core_, "{\"a\": X} == {\"a\": "+L+"}")
 	expr("eq-copy", core_, "X.copy() == X")
@@ -458,7 +497,7 @@ func groupOf(op string) string {
 		{"any", "any"}, {"all", "all"}, {"zip", "zip"}, {"map", "map"}, {"filter", "filter"}, {"reduce", "reduce"},
 		{"len", "len"}, {"in-", "in"}, {"not-in-", "in"}, {"add", "add"}, {"augadd", "add"}, {"eq", "eq"}, {"ne-", "ne"},
 		{"index", "index"}, {"slice", "slice"}, {"for-", "iterate"}, {"comprehension", "iterate"}, {"dict-comprehension", "iterate"},
-		{"join", "join"}, {"str", "str"}, {"json", "json"}, {"glob", "glob"}, {"get", "dict-get"}, {"keys", "dict-keys"},
+		{"join", "join"}, {"str", "str"}, {"json", "json"}, {"get", "dict-get"}, {"keys", "dict-keys"},
 		{"values", "dict-values"}, {"items", "dict-items"}, {"copy", "dict-copy"},
 	}
 	for _, r := range rules {
@@ -569,8 +608,8 @@ func describe(o outcome) string {
 }
 
 // check evaluates all applications of one value through every channel.
-func check(r *lib.Run, idx int, sh shape, minimise bool) {
-	base := fmt.Sprintf("c%d_%s", idx, strings.ToLower(sh.Name))
+func check(r *lib.Run, idx int, prefix string, sh shape, minimise bool) {
+	base := fmt.Sprintf("%s%d_%s", prefix, idx, strings.ToLower(sh.Name))
 	rn := &runner{r: r, env: asplib.NewEnv(nil), base: base}
 	defer asplib.RemovePkg(base)
 	nonEmpty := asplib.Lit(sh.Val) != "[]" && asplib.Lit(sh.Val) != "{}"
@@ -684,13 +723,13 @@ func noteExtended(r *lib.Run, key, loc, imp string) {
 }
 
 // checkConfig compares list-valued CONFIG entries with equal literals.
-func checkConfig(r *lib.Run, idx int, sh shape) {
+func checkConfig(r *lib.Run, idx int, prefix string, sh shape) {
 	l := sh.Val.([]any)
 	strs := make([]string, len(l))
 	for i, e := range l {
 		strs[i] = e.(string)
 	}
-	base := fmt.Sprintf("k%d", idx)
+	base := fmt.Sprintf("%s%d", prefix, idx)
 	defer asplib.RemovePkg(base)
 	seq := 0
 	for _, name := range []string{[]string{"PROTO_LANGUAGES", "PROTOC_FLAGS"}[idx%2]} {
@@ -748,17 +787,17 @@ func TestC18(t *testing.T) {
 
 	// Small scope: the canonical minimal value of every shape (so that the first witness per key is minimal).
 	r.ForEach("minimal", len(shapeNames), 8, func(i int, _ *rand.Rand) {
-		check(r, 100000+i, minimal(shapeNames[i]), false)
+		check(r, i, "m", minimal(shapeNames[i]), false)
 	})
 	r.ForEach("minimal-config", 1, 1, func(i int, _ *rand.Rand) {
-		checkConfig(r, 100000, minimal("LS"))
+		checkConfig(r, i, "km", minimal("LS"))
 	})
 	r.ForEach("values", asplib.Dev(r.Pick(90, 6000)), 8, func(i int, rng *rand.Rand) {
 		name := shapeNames[i%len(shapeNames)]
-		check(r, i, genShape(name, rng), true)
+		check(r, i, "c", genShape(name, rng), true)
 	})
 	r.ForEach("config", asplib.Dev(r.Pick(6, 300)), 8, func(i int, rng *rand.Rand) {
-		checkConfig(r, i, genShape("LS", rng))
+		checkConfig(r, i, "k", genShape("LS", rng))
 	})
 	extMu <- struct{}{}
 	r.Extra("extended_differences_not_asserted", extNotes)
